@@ -279,6 +279,20 @@ def _shadowing_classes(res):
     return sorted({p["class_name"] for m in res.get("modules", []) for p in m.get("classes", []) if p["class_name"] in IMPORTED_HELPERS})
 
 
+def _enclosing_reference(res, msg):
+    """NameError for the class name of a top-level class whose own inner classes mention it un-quoted in their metadata"""
+    m = re.match(r"name '(\w+)' is not defined", msg or "")
+    if not m:
+        return False
+    for mod in res.get("modules", []):
+        for p in mod.get("classes", []):
+            if p["class_name"] == m.group(1):
+                for _, ip in _walk_plans(p.get("inner", [])):
+                    if any(re.search(r'"type": (Type\[)?' + re.escape(m.group(1)) + r'\b', a.get("field_definition") or "") for a in ip["attrs"]):
+                        return True
+    return False
+
+
 def _defined_elsewhere(res, module, name):
     return any(m["module"] != module and any(p["class_name"] == name for p in m.get("classes", [])) for m in res.get("modules", []))
 
@@ -312,6 +326,9 @@ def classify_pipeline(job, res, coq):
         elif res["stage"] == "validate_imports" and typ == "TypeError" and "unsupported operand type(s) for |" in msg and _has_forwardref_union(res):
             out.append(("choice-type-forwardref-union", "Filters.choice_type wraps a union that contains a quoted forward reference: "
                         + _has_forwardref_union(res) + " -> " + msg))
+        elif res["stage"] == "validate_imports" and typ == "NameError" and _enclosing_reference(res, msg):
+            out.append(("inner-class-refers-to-enclosing-class", "the metadata of an inner class names its enclosing top-level class, which is not "
+                        "bound yet while its body runs: " + msg))
         elif res["stage"] == "validate_imports" and _shadowing_classes(res):
             out.append(("class-name-shadows-import", f"generated class(es) {_shadowing_classes(res)} hide the name the module imports for its "
                         f"own use: {typ}: {msg}"))
@@ -520,6 +537,7 @@ def pipeline_oracle(ck: Check):
         ("xsd", {"s.xsd": W_XSD_F13}, {}), ("xsd", {"s.xsd": W_XSD_F16}, {}), ("xsd", {"s.xsd": W_XSD_F20}, {}),
         ("xsd", {"s.xsd": W_XSD_F14}, {"generic_collections": True}),
         ("xml", {"await0.xml": W_XML_F12}, {"wrapper_fields": True, "frozen": True, "slots": True}),
+        ("xsd", {"s.xsd": W_XSD_F21}, {}), ("xsd", {"s.xsd": W_XSD_F22}, {"structure_style": "single-package"}),
         ("xsd", {"one.xsd": W_XSD_CLUSTER, "two.xsd": W_XSD_OTHER}, {}),
         ("xsd", {"one.xsd": W_XSD_CLUSTER, "two.xsd": W_XSD_OTHER}, {"structure_style": "namespaces"}),
         ("xsd", {"one.xsd": W_XSD_CLUSTER, "two.xsd": W_XSD_OTHER}, {"structure_style": "clusters"}),
@@ -590,6 +608,14 @@ W_XSD_F14 = _xsd(_ct("Sequence", ["x"]) + '<xs:complexType name="T"><xs:sequence
 
 
 W_XML_F12 = '<values><True ForwardRef="-١"><_1></_1><_1 values="" AB_a_b="A">mixed <_1><True True="\'"> </True></_1> tail</_1><_1><values>mixed <values></values> tail</values><_1 True="-.5" _1="class"> </_1><values> </values></_1><values><_1><_1></_1><True>2001-01-01</True></_1><True>true</True></values></True><True>2001-01-01</True></values>'
+W_XSD_F21 = _xsd('<xs:complexType name="B"><xs:sequence><xs:element name="x" type="xs:string"/></xs:sequence></xs:complexType>'
+                 '<xs:complexType name="D"><xs:complexContent><xs:extension base="B"><xs:attribute name="x" type="xs:string"/>'
+                 '<xs:attribute name="x_Attribute" type="xs:string"/></xs:extension></xs:complexContent></xs:complexType>')
+W_XSD_F22 = ('<xs:schema xmlns:xs="http://www.w3.org/2001/XMLSchema" xmlns:p1="urn:a" targetNamespace="urn:a" elementFormDefault="qualified">'
+             '<xs:element name="yield" substitutionGroup="p1:global"/><xs:complexType name="yield" abstract="true"><xs:sequence>'
+             '<xs:element name="False" type="xs:anyURI"/><xs:element name="False" minOccurs="2" maxOccurs="2"><xs:complexType mixed="true">'
+             '<xs:choice><xs:element ref="p1:global"/></xs:choice></xs:complexType></xs:element></xs:sequence></xs:complexType>'
+             '<xs:element name="global"/></xs:schema>')
 _CT = '<xs:complexType name="%s"><xs:sequence><xs:element name="p" type="xs:string"/></xs:sequence></xs:complexType>'
 W_XSD_CLUSTER = ('<xs:schema xmlns:xs="http://www.w3.org/2001/XMLSchema" targetNamespace="urn:x" xmlns="urn:x" elementFormDefault="qualified">'
                  + _CT % "a" + _CT % "A" + _CT % "a_1" + '<xs:element name="root"><xs:complexType><xs:sequence><xs:element name="x" type="a"/>'
